@@ -1,5 +1,6 @@
 import Cdecao.Engine.Core
 import Cdecao.Engine.Term
+import Cdecao.Engine.Final
 /-! # C19 — a failing worker makes the search fail, not hang
 
 The solver's verdict may be `Res.panic`. `acquire t` on such a verdict gives the busy count back
@@ -19,5 +20,41 @@ theorem C19_no_hang {root : ν} {top T : Nat} {c : Cfg ν σ} (hT : 0 < T)
 theorem C19_bounded_work (W : ν → Nat) (hW : Budget W) {c c' : Cfg ν σ} {ev : Ev} (hs : step? c ev = some c') :
     Psi W c' + (if ev.isWake then 0 else 1) ≤ Psi W c + 3 * wakes c ev :=
   psi_step W hW hs
+
+/-- `dead` is absorbing -/
+theorem C19_dead_absorbing {c c' : Cfg ν σ} {ev : Ev} (hs : step? c ev = some c') {t : Nat}
+    (hp : c.pcs[t]? = some Pc.dead) : c'.pcs[t]? = some Pc.dead :=
+  dead_absorbing hs hp
+
+/-- the failure is reported: `outcome` models the join loop of `bab::solve`
+    (`for worker in workers { worker.join().unwrap(); }`; `some true` = the `unwrap` panics,
+    `some false` = `solve` returns, `none` = blocked in a `join`). If a worker is dead in a
+    reachable configuration, then in every later configuration it is still dead, `solve` does not
+    return normally, some non-wake step is enabled until every worker has stopped, and once every
+    worker has stopped `solve` panics. -/
+theorem C19_failure_reported {root : ν} {top T : Nat} {c c' : Cfg ν σ} {t : Nat} (hT : 0 < T)
+    (hr : Reach root top T c) (hdead : c.pcs[t]? = some Pc.dead) (hs : Steps c c') :
+    c'.pcs[t]? = some Pc.dead ∧
+    outcome c'.pcs ≠ some false ∧
+    (¬ AllFinished c' → ∃ ev, ev.isWake = false ∧ (step? c' ev).isSome = true) ∧
+    (AllFinished c' → outcome c'.pcs = some true) :=
+  failure_reported hT hr hdead hs
+
+/-- a join loop that is blocked is blocked on a running worker, and the system can move -/
+theorem C19_join_not_stuck {root : ν} {top T : Nat} {c : Cfg ν σ} (hT : 0 < T)
+    (hr : Reach root top T c) (h : outcome c.pcs = none) :
+    ∃ ev, ev.isWake = false ∧ (step? c ev).isSome = true :=
+  outcome_none_progress hT hr h
+
+/-- the verdict of the join loop, once there is one, never changes -/
+theorem C19_outcome_final {c c' : Cfg ν σ} {b : Bool} (hs : Steps c c') (h : outcome c.pcs = some b) :
+    outcome c'.pcs = some b :=
+  outcome_stable hs h
+
+/-- a panic is counted: `panicked > 0` iff some worker is `dying` or `dead` -/
+theorem C19_panicked_pos {root : ν} {top T : Nat} {c : Cfg ν σ} {st : Stats}
+    (h : ReachS root top T (c, st)) :
+    0 < st.panicked ↔ ∃ t : Nat, c.pcs[t]? = some Pc.dying ∨ c.pcs[t]? = some Pc.dead :=
+  panicked_pos_iff h
 
 end Props
